@@ -76,6 +76,12 @@ def snapshot(model) -> dict:
     return t
 
 
+def _cross_year(t):
+    cum = [Fraction(x) for x in t['cum'] if '/' in x or x.lstrip('-').isdigit()]
+    ys = [k for k in range(1, len(cum)) if cum[k - 1] <= 0 < cum[k]]
+    return ys[-1] if ys else None
+
+
 _PAYBACK = re.compile(r'^\s*Project Payback Period:\s*(\S+)', re.M)
 
 
@@ -209,6 +215,52 @@ def build_jobs(tier: str) -> list:
     return jobs
 
 
+def crossing_jobs(tier: str):
+    """Boundary-seeking driver: M1 visits a zero crossing of the cumulative series in every project year; to put the
+    real code in the same states a base run is made first and the sale prices are then scaled (revenue is linear in
+    price) so that the crossing falls in a chosen year, including the first and the very last one."""
+    rng = random.Random(seed() * 7 + 404)
+    n = 36 if tier == 'quick' else 300
+    bases = []
+    for tag, text, p in gen.grid(seed() * 31 + 404, n, with_extras=False, resmodels=(4,)):
+        q = dict(p)
+        q['Construction Years'] = rng.choice([1, 2, 2, 3, 4, 5, 6] if tier == 'quick' else list(range(1, 15)))
+        if tier == 'thorough' and rng.random() < 0.3:
+            q['Plant Lifetime'] = rng.choice([1, 2, 50, 100])
+        for prod in ('Electricity', 'Heat', 'Cooling'):
+            q[f'Starting {prod} Sale Price'] = 0.05
+            q[f'Ending {prod} Sale Price'] = 0.05
+        q['Total Capital Cost'] = gen.fmt(rng.uniform(20, 200))
+        q['Total O&M Cost'] = gen.fmt(rng.uniform(0.2, 4))
+        bases.append((tag, q))
+    first = sim.run_many([(f'xbase:{t}', gen.to_text(q)) for t, q in bases], 'harness.c04:project')
+    jobs = []
+    for (tag, q), o in zip(bases, first):
+        t = o.get('c04')
+        if o['status'] != 'ok' or not t:
+            continue
+        L, Cy = t['L'], t['Cy']
+        N = L + Cy
+        rev = [sum(Fraction(t[k][i]) for k in ('elecR', 'heatR', 'coolR')) for i in range(N)]
+        ccap, coam = Fraction(t['ccap']), Fraction(t['coam'])
+        for y in sorted({Cy, N - 1, rng.randint(Cy, N - 1)} | ({N - 2} if N - 2 >= Cy else set())):
+            theta = Fraction(rng.randint(5, 95), 100)
+            S = sum(rev[Cy:y + 1])
+            den = S - theta * rev[y]
+            if den <= 0:
+                continue
+            f = (ccap + coam * (y - Cy + 1) - theta * coam) / den
+            price = float(f * Fraction(5, 100))
+            if not (0 < price < 100):
+                continue
+            q2 = dict(q)
+            for prod in ('Electricity', 'Heat', 'Cooling'):
+                q2[f'Starting {prod} Sale Price'] = repr(price)
+                q2[f'Ending {prod} Sale Price'] = repr(price)
+            jobs.append((f'cross@{y}of{N}:{tag}', gen.to_text(q2)))
+    return jobs
+
+
 def validate(res: Result, out: list):
     traces, meta = [], {}
     for k, o in enumerate(out):
@@ -268,9 +320,12 @@ def run(tier: str) -> int:
             raise MachineryFailure('pinned-design cfg no longer violates PaybackInCrossingYear (vacuity guard)')
         res.cov['pinned_design_counterexample'] = [s['vars'] for s in rp['trace'][-1:]]
     replay_m2(res, tier)
-    out = sim.run_many(build_jobs(tier), 'harness.c04:project', keep_report=True)
+    out = sim.run_many(build_jobs(tier) + crossing_jobs(tier), 'harness.c04:project', keep_report=True)
     counts = validate(res, out)
-    for need in ('C04_cf', 'C04_cum', 'C04_npv', 'C04_irr', 'C04_payback', 'C04_na', 'C04_rev_elec', 'C04_rev_heat',
+    # how many traces cross in their very last / first operating year (the boundary states M1 visits)
+    res.cov['traces_crossing_in_last_year'] = sum(1 for o in out if o.get('c04') and _cross_year(o['c04']) == o['c04']['L'] + o['c04']['Cy'] - 1)
+    res.cov['traces_crossing_in_first_operating_year'] = sum(1 for o in out if o.get('c04') and _cross_year(o['c04']) == o['c04']['Cy'])
+    for need in ('C04_cf', 'C04_cum', 'C04_npv', 'C04_irr', 'C04_payback', 'C04_payback_reported', 'C04_na', 'C04_rev_elec', 'C04_rev_heat',
                  'C04_rev_cool', 'C04_rev_carbon', 'C04_x_npv', 'C04_a_payback'):
         if not counts.get(need):
             raise MachineryFailure(f'C04: clause {need} never evaluated (vacuous run)')
